@@ -65,6 +65,7 @@ func (s *Scorch) introducerLoop() {
 OUTER:
 	for {
 		atomic.AddUint64(&s.stats.TotIntroduceLoop, 1)
+		s.verifPoint("intro.idle")
 
 		select {
 		case <-s.closeCh:
@@ -108,6 +109,7 @@ OUTER:
 func (s *Scorch) introduceSegment(next *segmentIntroduction) error {
 	atomic.AddUint64(&s.stats.TotIntroduceSegmentBeg, 1)
 	defer atomic.AddUint64(&s.stats.TotIntroduceSegmentEnd, 1)
+	s.verifPoint("intro.segment.begin")
 
 	s.rootLock.RLock()
 	root := s.root
@@ -229,6 +231,7 @@ func (s *Scorch) introduceSegment(next *segmentIntroduction) error {
 	}
 
 	newSnapshot.updateSize()
+	s.verifPoint("intro.segment.beforeSwap")
 	s.rootLock.Lock()
 	if next.persisted != nil {
 		s.rootPersisted = append(s.rootPersisted, next.persisted)
@@ -244,6 +247,7 @@ func (s *Scorch) introduceSegment(next *segmentIntroduction) error {
 	atomic.StoreUint64(&s.stats.CurRootEpoch, s.root.epoch)
 	// release lock
 	s.rootLock.Unlock()
+	s.verifPoint("intro.segment.afterSwap")
 
 	if rootPrev != nil {
 		_ = rootPrev.DecRef()
@@ -263,6 +267,7 @@ func (s *Scorch) introduceSegment(next *segmentIntroduction) error {
 func (s *Scorch) introducePersist(persist *persistIntroduction) {
 	atomic.AddUint64(&s.stats.TotIntroducePersistBeg, 1)
 	defer atomic.AddUint64(&s.stats.TotIntroducePersistEnd, 1)
+	s.verifPoint("intro.persist.begin")
 
 	s.rootLock.Lock()
 	root := s.root
@@ -331,6 +336,7 @@ func (s *Scorch) introducePersist(persist *persistIntroduction) {
 	s.root = newIndexSnapshot
 	atomic.StoreUint64(&s.stats.CurRootEpoch, s.root.epoch)
 	s.rootLock.Unlock()
+	s.verifPoint("intro.persist.afterSwap")
 
 	if rootPrev != nil {
 		_ = rootPrev.DecRef()
@@ -344,6 +350,7 @@ func (s *Scorch) introducePersist(persist *persistIntroduction) {
 func (s *Scorch) introduceMerge(nextMerge *segmentMerge) {
 	atomic.AddUint64(&s.stats.TotIntroduceMergeBeg, 1)
 	defer atomic.AddUint64(&s.stats.TotIntroduceMergeEnd, 1)
+	s.verifPoint("intro.merge.begin")
 
 	s.rootLock.RLock()
 	root := s.root
@@ -495,6 +502,7 @@ func (s *Scorch) introduceMerge(nextMerge *segmentMerge) {
 	newSnapshot.AddRef() // 1 ref for the nextMerge.notify response
 
 	newSnapshot.updateSize()
+	s.verifPoint("intro.merge.beforeSwap")
 	s.rootLock.Lock()
 	// swap in new index snapshot
 	newSnapshot.epoch = s.nextSnapshotEpoch
@@ -504,6 +512,7 @@ func (s *Scorch) introduceMerge(nextMerge *segmentMerge) {
 	atomic.StoreUint64(&s.stats.CurRootEpoch, s.root.epoch)
 	// release lock
 	s.rootLock.Unlock()
+	s.verifPoint("intro.merge.afterSwap")
 
 	if rootPrev != nil {
 		_ = rootPrev.DecRef()
